@@ -51,6 +51,7 @@ func main() {
 			"targeted probes: two rows of one new slot whose scaled values are congruent mod 2^32, and a first row whose scaled value is a non-zero multiple of 2^32. store: random save/load over (timeslot, value) pairs (before origin, origin-1, origin, inside, hot cells, beyond the end, >= origin+2^30-1, 2^32-1; value 0, equal, different). " +
 			"sync: the same wire oracle for clients whose server is a harness sync server that answers with genuine signed replies (window offset below the history origin, empty or partial bitfield), so that originals and re-sends are both judged; one large scenario re-sends 500 readings while rows keep arriving. " +
 			"fault: while the client runs, its history descriptor is swapped (dup3) for a write-only or a read-only descriptor of the same file, so every history read or every history write fails; during the window stored rows are rewritten and new slots arrive and change; after the window sync rounds re-send what is stored. " +
+			"emptyhist (conditional): first start on a history.dat of 0-3 bytes with the protocol clock past slot 0; a refused start is counted, a client that starts goes through rows, restart, rewritten rows and sync rounds. " +
 			"conc: 2-8 goroutines on one client save/load disjoint slot sets (every load has exactly one legal answer). " +
 			"Non-trivial = a version in which some slot has two usable rows with different values or a row whose value differs from the slot's first reading; a store operation on an occupied cell or outside the range; distinct by content.",
 		Assumptions: []string{
@@ -70,7 +71,7 @@ func main() {
 				"store.save_accepted": 100, "store.save_refused_occupied": 100, "store.save_refused_before_origin": 10, "store.save_noop_equal": 20, "store.zero_on_empty": 10,
 				"store.load": 100, "store.far_saves": 10, "store.wrap_zone_ops": 10, "store.full_checks": 5, "store.restarts": 1, "store.origin_minus_one": 1,
 				"conc.loads_on_stored": 10000, "conc.goroutines": 8, "conc.saves_accepted": 100, "conc.saves_refused_occupied": 1000,
-				"fault.read_fault_windows": 2, "fault.write_fault_windows": 2, "fault.rewritten_stored_rows_under_fault": 4, "fault.new_slots_changed_under_fault": 4, "fault.sync_rounds_after_fault": 6, "fault.datagrams": 40,
+				"fault.read_fault_windows": 2, "fault.write_fault_windows": 2, "fault.rewritten_stored_rows_under_fault": 4, "fault.new_slots_changed_under_fault": 4, "fault.sync_rounds_after_fault": 6, "fault.datagrams": 40, "emptyhist.scenarios": 4,
 				"sync.rounds_ok": 8, "sync.datagrams": 500, "sync.young_scenarios": 4, "sync.young_resent_slots": 20, "sync.big_scenarios": 1, "sync.slots_sent_more_than_once": 20,
 			} {
 				c.Require(k, min)
